@@ -1,5 +1,5 @@
 (* Origin.v — executable model of the origin finders of abel/tools/center.py
-     find_origin                       (center.py:18-57, dispatch 633-639)
+     find_origin                       (center.py:18-57, dispatch 636-642)
      find_origin_by_center_of_mass     (center.py:353-396; scipy.ndimage.center_of_mass)
      find_origin_by_convolution        (center.py:399-443)
      find_origin_by_center_of_image    (center.py:446-464)
